@@ -135,6 +135,10 @@ type Worker struct {
 	knownLog  []knownUndo
 	curInstr  ssa.Instruction
 	lastModel Model
+	cos       []*coroutine
+	cur       *coroutine
+	yieldCh   chan struct{}
+	coErr     interface{}
 	clock     int64
 	uf        map[string]string   // variable name -> parent (union-find over PC variables)
 	comp      map[string][]int    // root -> indices of PC conjuncts in the component
